@@ -680,6 +680,9 @@ class CellsImpl(*_cells_impl_base):
             data = {}
         self.data.update(data)
         self.input_keys = set(data.keys())
+        for key in data:
+            # Like values assigned later, so that they can be cleared
+            self.model.tracegraph.add_node(key_to_node(self, key))
 
         BaseNamespaceReferrer.__init__(self, space._namespace)
         self._namespace = self.parent._namespace
